@@ -17,13 +17,15 @@ func ResourcesUniverse(level string) *Universe {
 	tri := u.Typeref("TrInt64", Int64)
 	ent := u.Record("Ent", nil, Req("a", P(Int32)), Req("s", P(String)), Opt("o", P(String)), Opt("m", MapOf(P(String))), Opt("l", ArrayOf(P(Int64))))
 	meta := u.Record("Meta", nil, Req("total", P(Int32)), Opt("note", P(String)))
-	keyRec := u.Record("KeyRec", nil, Req("k1", P(String)), Req("k2", P(Int64)))
+	// (ko: an optional key field, left unset by most keys)
+	keyRec := u.Record("KeyRec", nil, Req("k1", P(String)), Req("k2", P(Int64)), Opt("ko", P(String)))
 	parRec := u.Record("ParRec", nil, Opt("p", P(String)))
 	ck := u.ComplexKey("CK", keyRec, parRec)
 	// entity with read-only / create-only annotated fields (C07)
-	// (innerUrn: a field whose name starts with the name of another annotated field)
+	// (innerUrn: a field whose name starts with the name of another annotated field; zStamp: an annotated field that
+	// is the last one written, right before the next entity of a batch)
 	ann := u.Record("Ann", nil, Req("id", P(Int64)), Req("name", P(String)), Opt("created", P(Int64)), Opt("inner", ent), Opt("items", ArrayOf(ent)), Opt("byKey", MapOf(ent)),
-		Opt("innerUrn", P(String)))
+		Opt("innerUrn", P(String)), Opt("zStamp", P(Int64)))
 
 	finders := func(entity *Type) []*Method {
 		return []*Method{
@@ -131,14 +133,14 @@ func ResourcesUniverse(level string) *Universe {
 	u.Resources = append(u.Resources, as)
 	// annotated resource (read-only / create-only fields)
 	an := collection("annotated", "annotatedId", P(Int64), ann, false)
-	an.ReadOnly = []string{"id", "inner/o", "items/*/o", "byKey/*/o"}
+	an.ReadOnly = []string{"id", "inner/o", "items/*/o", "byKey/*/o", "zStamp"}
 	an.CreateOnly = []string{"created", "inner/a"}
 	// only create-only / only read-only annotations (the generated bindings choose their exclusion
 	// specs per method from which of the two lists is non-empty)
 	aco := collection("annotatedCO", "annotatedCOId", P(Int64), ann, false)
 	aco.CreateOnly = []string{"created", "inner/a"}
 	aro := collection("annotatedRO", "annotatedROId", P(Int64), ann, false)
-	aro.ReadOnly = []string{"id", "items/*/o"}
+	aro.ReadOnly = []string{"id", "items/*/o", "zStamp"}
 	// a record-typed field excluded as a whole, and the return-entity variants of create / partial_update
 	awh := collection("annotatedWhole", "annotatedWholeId", P(Int64), ann, true)
 	awh.ReadOnly = []string{"inner"}
